@@ -114,8 +114,13 @@ def build_rows(case):
     sheets.append({"name": "choices", "header": ["list_name", "name", "label"], "rows": crow})
     if "ext_nofilter" in T:
         sheets.append({"name": "external_choices", "header": ["list_name", "name", "label"], "rows": [["X", "x1", "X1"]]})
+    st = {}
     if "dup_id" in T:
-        sheets.append({"name": "settings", "header": ["form_id", "id_string"], "rows": [["fid", "ids"]]})
+        st.update(form_id="fid", id_string="ids")
+    if "noclean" in T:
+        st["clean_text_values"] = "no"
+    if st:
+        sheets.append({"name": "settings", "header": list(st), "rows": [list(st.values())]})
     return {"sheets": sheets}
 
 
